@@ -101,6 +101,10 @@ SProduce(e) ==
   /\ contents' = contents \cup {Content(nn[i]) : i \in 1 .. Len(nn)}
   /\ Req("C11", SemHashOK(e, d))
   /\ Req("C10", e.dirty = << >>)
+  \* C16: the apply / if-then-else caches and tables of a long-lived builder never change a result - the same operation on
+  \* structural copies of the operands in a brand-new builder (its node dump is self-contained) denotes the same function
+  /\ Req("C16", /\ "cold_panic" \notin DOMAIN e
+                /\ ("cold_root" \in DOMAIN e => DenPtr(ExtendDen(<< >>, e.cold_nodes, 1), e.cold_root) = d))
   /\ node' = node \o nn /\ nden' = nd2
   /\ root' = [root EXCEPT ![e.res] = e.root]
   /\ den' = [den EXCEPT ![e.res] = d]
